@@ -11,6 +11,7 @@ import itertools
 import numpy as np
 
 import fsic
+from fsic.extensions import AliasMixin, ProgressBarMixin, TracerMixin
 from fsic.exceptions import ParserError, SymbolError
 
 from .. import programs, recarray, refsolve
@@ -96,6 +97,18 @@ OPTIONS = [
 def build(p):
     symbols = fsic.parse_model(p.script())
     return fsic.build_model(symbols)
+
+
+# the same model reached another way: the class text without type hints; the class with the library's mixins stacked on it (unused)
+BUILD_ROUTES = ['default', 'untyped', 'stacked-mixins']
+
+
+def model_for(p, Model, route):
+    if route == 'default':
+        return Model
+    if route == 'untyped':
+        return fsic.build_model(fsic.parse_model(p.script()), with_type_hints=False)
+    return type('Stacked', (ProgressBarMixin, AliasMixin, TracerMixin, Model), {'ALIASES': {}})
 
 
 def fresh(Model, n):
@@ -227,7 +240,7 @@ def run_solve_case(case, p=None, Model=None):
     """solve(start, end): touches only [start..end]; an infeasible start/end is rejected, not wrapped."""
     if p is None:
         p = next(q for q in progs('thorough') if q.script() == case['script'])
-        Model = build(p)
+        Model = model_for(p, build(p), case.get('route', 'default'))
     n, si, ei = case['n'], case['si'], case['ei']
     lags, leads = p.lags_leads()
     m = fresh(Model, n)
@@ -271,18 +284,20 @@ def run_block(block, tier, seed):
         L = lags + leads
         if block.get('solve'):
             n = L + 2
-            for si, ei in itertools.product([None] + list(range(n)), repeat=2):
-                case = dict(kind='solve', script=p.script(), n=n, si=si, ei=ei)
-                acc.evaluations += 1
-                acc.nontrivial += 1
-                try:
-                    with guard(10):
-                        v = run_solve_case(case, p, Model)
-                except CaseTimeout:
-                    acc.violation('timeout', case, 'termination', 'timeout')
-                    continue
-                for key, exp, obs, what in v:
-                    acc.violation(key, case, exp, obs, what)
+            for route in BUILD_ROUTES:
+                M = model_for(p, Model, route)
+                for si, ei in itertools.product([None] + list(range(n)), repeat=2):
+                    case = dict(kind='solve', script=p.script(), n=n, si=si, ei=ei, route=route)
+                    acc.evaluations += 1
+                    acc.nontrivial += 1
+                    try:
+                        with guard(10):
+                            v = run_solve_case(case, p, M)
+                    except CaseTimeout:
+                        acc.violation('timeout', case, 'termination', 'timeout')
+                        continue
+                    for key, exp, obs, what in v:
+                        acc.violation(key + ('' if route == 'default' else ':' + route), case, exp, obs, what)
             continue
         for n in range(L + 1, L + 4):
             for t in range(-n, n):
